@@ -209,6 +209,32 @@ func (w *World) enabled() []Event {
 			}
 			continue
 		}
+		if f := s.Fault; f != nil && op.Inst == f.Inst && !op.Applied && w.opCount[f.Inst+".hb.Update"] >= f.FromN && (op.Label != "hb" || op.Kind != "Update" || opSeq(op) >= f.FromN) {
+			op.Deadline = 0
+			switch {
+			case f.Mode == "hang":
+				if op.Fault == "" {
+					op.Fault = "hang"
+				}
+				continue
+			case f.Mode == "lost" && (op.Kind == "Update" || op.Kind == "Create" || op.Kind == "Delete"):
+				def = append(def, Event{Name: "lose:" + op.ID, tgt: op.Inst, run: func() {
+					w.apply(op)
+					op.Fault = "lost"
+					op.resErr = nats.ErrTimeout
+					op.ResRev = 0
+					w.answer(op)
+				}})
+				continue
+			default:
+				k := strings.TrimPrefix(f.Mode, "err:")
+				if f.Mode == "lost" {
+					k = "timeout"
+				}
+				def = append(def, Event{Name: "err:" + op.ID + ":" + k, tgt: op.Inst, run: func() { op.Fault = "err:" + k; op.resErr = errKind(k); w.answer(op) }})
+				continue
+			}
+		}
 		if op.Deadline > 0 && op.Deadline <= now {
 			overdue = true
 		}
@@ -734,4 +760,12 @@ func libraryGoroutines(mark bool) []string {
 	}
 	sort.Strings(out)
 	return out
+}
+
+// opSeq: the per-(instance,label,kind) sequence number encoded in the op id.
+func opSeq(op *Op) int {
+	i := strings.LastIndex(op.ID, "#")
+	n := 0
+	fmt.Sscanf(op.ID[i+1:], "%d", &n)
+	return n
 }
